@@ -1,6 +1,6 @@
 """Common driver for the file-system properties served by harness/cmd/fsops + spec/FSTrace.tla."""
 import json, os, shutil, collections
-import vlib, fsmon, stagedmon
+import vlib, fsmon, stagedmon, txnmon
 
 
 def run_mode(ctx, mode, extra_args=(), binary="fsops"):
@@ -42,6 +42,12 @@ def run_mode(ctx, mode, extra_args=(), binary="fsops"):
             st["staged"] = dict(sst, design=stagedmon.design(ctx.tier) if mode == "c01" else "see C01", drift=[dict(x, at=x["at"]["ev"]) for x in sdrift[:20]], drift_count=len(sdrift))
             for x in sdrift[:5]:
                 vlib.log("PROTOCOL-DRIFT %s: the real run %s (t=%d) is not a behaviour of Staged.tla at event %s" % (mode, x["name"], x["t"], x["at"]))
+        if binary == "txn" and mode == "c06":
+            # batch protocol inclusion (spec/Txn.tla): evidence only, like the Staged inclusion
+            tdrift, tst = txnmon.validate(trace)
+            st["txn"] = dict(tst, design=txnmon.design(), drift=tdrift[:20], drift_count=len(tdrift))
+            for x in tdrift[:5]:
+                vlib.log("PROTOCOL-DRIFT %s: the real run %s (t=%d) is not a behaviour of Txn.tla at event %s" % (mode, x["name"], x["t"], x["at"]))
         tl = vlib.read_ndjson(trace)
         return rows, summ, st, tl[1] if len(tl) > 1 else {}
     finally:
